@@ -34,8 +34,9 @@ def run_mutant(m, scale, tier="quick"):
     src = open(path).read()
     cnt = src.count(m["old"])
     if cnt != m.get("count", 1):
-      return {"id": m["id"], "status": "stale",
-              "detail": "old text occurs %d times" % cnt}
+      return {"id": m["id"], "property": m["property"], "status": "stale",
+              "expect": m.get("expect", "kill"), "wall_s": 0,
+              "detail": ["old text occurs %d times" % cnt]}
     src = src.replace(m["old"], m["new"])
     with open(path, "w") as f:
       f.write(src)
